@@ -84,9 +84,13 @@ func scenSchedules() []schedule {
 	for i, srih := range []bool{false, true} {
 		add(fmt.Sprintf("rec-%d", i), "rec", clusterCfg{N: 4, SRIH: srih, ExtPool: i == 1}, recRounds, 40)
 	}
+	// the consensus loop of a node among seven validators needs longer per
+	// height than its ledger needs per block: only there a backlog makes the
+	// ledger run ahead of the loop
 	for i, srih := range []bool{false, true} {
-		add(fmt.Sprintf("burst-%d", i), "burst", clusterCfg{N: 4 + 3*i, SRIH: srih}, []scenRound{burst, burst, burst, burst, burst, burst}, 30)
+		add(fmt.Sprintf("burst-%d", i), "burst", clusterCfg{N: 7, SRIH: srih}, slices.Repeat([]scenRound{burst}, 6), 30)
 	}
+	add("burst-2", "burst", clusterCfg{N: 4, ExtPool: true}, slices.Repeat([]scenRound{burst}, 6), 30)
 	add("epoch-burst-0", "epoch", clusterCfg{N: 4, SwitchTo: 7, SwitchAt: 14}, []scenRound{{Kind: "epoch-burst"}}, 20)
 	if thorough {
 		long := slices.Concat(recRounds, []scenRound{lock(2, ""), lock(2, "cut"), lock(3, "lost-request"), lock(1, "lost-request"), lock(0, "")})
@@ -100,12 +104,12 @@ func scenSchedules() []schedule {
 			}
 			add(fmt.Sprintf("rec-%d", i), "rec", c, long, 80)
 		}
-		for i := 2; i < 8; i++ {
-			c := clusterCfg{N: 4, SRIH: i%2 == 1, ExtPool: i%3 == 0}
-			if i >= 6 {
-				c.N = 7
+		for i := 3; i < 10; i++ {
+			c := clusterCfg{N: 7, SRIH: i%2 == 1, ExtPool: i%3 == 0}
+			if i >= 8 {
+				c.N = 4
 			}
-			add(fmt.Sprintf("burst-%d", i), "burst", c, slices.Repeat([]scenRound{burst}, 8), 60)
+			add(fmt.Sprintf("burst-%d", i), "burst", c, slices.Repeat([]scenRound{burst}, 10), 60)
 		}
 		for i := 1; i < 6; i++ {
 			c := clusterCfg{N: 4, SwitchTo: 7, SwitchAt: 14, SRIH: i%2 == 1}
@@ -347,13 +351,16 @@ func (a *attempt) backlogBurst(r scenRound) {
 	cl := a.cl
 	n := len(cl.nodes)
 	f := (n - 1) / 3
-	nl := 1 + a.sr.Intn(f) // laggers; with f+1-nl more validators cut the others are one short of M
+	nl := f // laggers; with f+1-nl more validators cut the others are one short of M
+	if a.sr.Intn(3) == 0 {
+		nl = 1 + a.sr.Intn(f)
+	}
 	if v := os.Getenv("C19_NL"); v != "" { // experiment knob
 		fmt.Sscan(v, &nl)
 	}
 	laggers := a.sr.Perm(n)[:nl]
 	isLagger := setOf(n, laggers...)
-	k := uint32(2 + a.sr.Intn(2))
+	k := uint32(n + 1 + a.sr.Intn(4))
 	if v := os.Getenv("C19_K"); v != "" { // experiment knob
 		var kb, kr int
 		fmt.Sscanf(v, "%d,%d", &kb, &kr)
@@ -389,7 +396,7 @@ func (a *attempt) backlogBurst(r scenRound) {
 		}
 	}
 	c.Cut = setOf(n, cut...)
-	if os.Getenv("C19_NOSTAGE") == "" {
+	if os.Getenv("C19_STAGE") != "" { // experiment knob: the payloads of the open height first
 		c.HoldBelow = top + 1
 	}
 	a.faultStep(c, func() bool { return false }, 3*blockTime)
